@@ -48,7 +48,7 @@ def rate_expr(tmpl, p, q, X, Y, dname):
     raise ValueError(tmpl)
 
 
-def gen_model(ch, stochastic=False, max_states=5, max_events=5, only_T=False):
+def gen_model(ch, stochastic=False, max_states=5, max_events=5, only_T=False, hybrid=False):
     """Build a Def.  stochastic=True restricts to event-only models with integer
     magnitudes (the simulable class)."""
     ns = ch.choose("n_states", [3, 2, 4, 5] if only_T else [3, 1, 2, 4, 5])
@@ -66,7 +66,7 @@ def gen_model(ch, stochastic=False, max_states=5, max_events=5, only_T=False):
     limits = [None] * ns
     if sstyle in ("list", "tuples"):
         for i in range(ns):
-            limits[i] = ch.choose("lim%d" % i, [None, (0, None), (None, 4), (0, 3), (None, None), (1, None)])
+            limits[i] = ch.choose("lim%d" % i, [None, (0, None), (None, 4), (0, 3), (None, None), (1, None), (0, 1000000)])
             if limits[i] is not None:
                 limits[i] = tuple(limits[i])
     nder = 0 if stochastic and False else ch.choose("n_derived", [0, 1])
@@ -116,7 +116,7 @@ def gen_model(ch, stochastic=False, max_states=5, max_events=5, only_T=False):
                 trans.append(("T", o, dst, mag))
         events.append({"rate": rate, "trans": trans})
     odes = []
-    if not stochastic:
+    if hybrid or not stochastic:
         node = ch.choose("n_odes", [0, 1, 2])
         for k in range(node):
             s = ch.choose("ode%d.s" % k, _rot(states, k))
@@ -275,6 +275,16 @@ def seed_values(name):
         v = {"n_states": 2, "n_params": 2, "n_events": 2, "lim0": (None, 4), "lim1": (1, None)}
         v.update(_ev(0, "constant", "beta", trans=[("B", None, "S", "3")]))
         v.update(_ev(1, "constant", "gamma", trans=[("T", "I", "S", "1")]))
+        return v
+    if name == "HYBRID":  # events plus an explicit ODE term that pushes a state towards its upper limit
+        v = {"n_states": 2, "n_params": 2, "n_events": 1, "lim0": (0, 3), "n_odes": 1,
+             "ode0.s": "S", "ode0.t": "const", "ode0.p": "gamma"}
+        v.update(_ev(0, "linear", "beta", "S", trans=[("T", "S", "I", "1")]))
+        return v
+    if name == "CAPPEDBIG":  # a large upper limit, births into it
+        v = {"n_states": 2, "n_params": 2, "n_events": 2, "lim0": (0, 1000000)}
+        v.update(_ev(0, "constant", "beta", trans=[("B", None, "S", "3")]))
+        v.update(_ev(1, "linear", "gamma", "I", trans=[("T", "I", "S", "1")]))
         return v
     if name == "RANGE":   # range-style declaration
         v = {"n_states": 3, "n_params": 2, "n_events": 2, "state_style": "range"}
